@@ -5,7 +5,7 @@ for SID in "$@"; do
   WT=$(mktemp -d /tmp/mutconf.XXXXXX); rmdir "$WT"
   git -C /repo worktree add -q --detach "$WT" HEAD || continue
   if git -C "$WT" apply "$D/patch.diff"; then
-    OUT=$(/tmp/mut/run_tests.sh "$WT" 2>&1 | head -5 | tr '\n' ' ')
+    OUT=$(/verif/tools/run_baseline_in.sh "$WT" 2>&1 | head -5 | tr '\n' ' ')
   else
     OUT="PATCH DOES NOT APPLY"
   fi
